@@ -74,6 +74,26 @@ class VersionsProfile(StoreProfile):
         if i == 0:
             run.scratch["uni"] = self.plan_universe(run, run.store.clone(), run.params["n_entities"], mirror=False,
                                                     cfgs=[m.default_config], data_p=0.0)
+            if run.params.get("crowd"):
+                # many versions (beyond 32 / 48 / 64) of one task, some with files
+                shadow = run.store.clone()
+                for st in run.scratch["uni"]:
+                    if st["op"] == "create":
+                        shadow.create(st["cfg"], st["sid"], None)
+                files = [e for e in shadow.listing(m.default_config) if m.is_leaf_type(m.natural_type(e))
+                         and VERSION_KEY in m.by_name[m.natural_type(e)].keys]
+                if files:
+                    f = rng.choice(files)
+                    tn = m.natural_type(f)
+                    k = m.by_name[tn].keys.index(VERSION_KEY)
+                    vals = self.vocab(run).values(tn, VERSION_KEY)
+                    for v in rng.sample(vals, min(len(vals), rng.choice([34, 50, 66]))):
+                        segs = f.split("/")
+                        segs[k] = v
+                        s2 = "/".join(segs) if rng.random() < 0.5 else "/".join(segs[:k + 1])
+                        if shadow.can_create(m.default_config, s2) == "ok":
+                            shadow.create(m.default_config, s2, None)
+                            run.scratch["uni"].append({"op": "create", "cfg": m.default_config, "sid": s2, "data": None})
         uni = run.scratch["uni"]
         if i < len(uni):
             return uni[i]
